@@ -121,3 +121,68 @@ func HarnessC17Unexport() {
 	}
 	check(len(rest) == len(name) && rest[1:] == name[1:] && rest[0] == name[0]+('a'-'A'), "distinct method names give distinct field names")
 }
+
+// c17Printed collects what the generator prints through
+// (*protogen.GeneratedFile).P on the symbolic side (one element per call).
+var c17Printed []string
+
+//verif:stub (*google.golang.org/protobuf/compiler/protogen.GeneratedFile).P@genP
+func stubGeneratedFileP(g *protogen.GeneratedFile, v ...interface{}) {
+	line := ""
+	for _, x := range v {
+		s, ok := x.(string)
+		if !ok {
+			panic("stubGeneratedFileP: only strings are modelled")
+		}
+		line += s
+	}
+	c17Printed = append(c17Printed, line)
+}
+
+// HarnessC17Comments: whatever leading comment a method, service or file
+// carries (any text over letters, blanks and line breaks) and whether or not
+// it is deprecated, every line the generator prints for it is a Go line
+// comment - the piece of "emits syntactically valid Go" that depends on
+// descriptor text.
+//
+//verif:harness property=C17 stubs=genP
+func HarnessC17Comments() {
+	text := nondetString("comment", bound("commentLen", 5, 6))
+	for i := 0; i < len(text); i++ {
+		assume(text[i] == 'a' || text[i] == ' ' || text[i] == '\n' || text[i] == '/')
+	}
+	deprecated := nondetBool("deprecated")
+	g := &protogen.GeneratedFile{}
+	c17Printed = nil
+	leadingComments(g, protogen.Comments(text), deprecated)
+	var out string
+	var contentErr error
+	if verifSymbolic() {
+		for _, l := range c17Printed {
+			out += l + "\n"
+		}
+	} else {
+		var b []byte
+		b, contentErr = g.Content()
+		out = string(b)
+	}
+	check(contentErr == nil, "the printed text is retrievable")
+	if text == "" && !deprecated {
+		check(out == "", "nothing is printed for an absent comment")
+	}
+	if deprecated {
+		check(len(out) > 0, "a deprecated element gets a deprecation notice")
+	}
+	// every printed line is a line comment
+	start := 0
+	for i := 0; i <= len(out); i++ {
+		if i == len(out) || out[i] == '\n' {
+			line := out[start:i]
+			start = i + 1
+			if i == len(out) && line == "" {
+				break
+			}
+			check(len(line) >= 2 && line[0] == '/' && line[1] == '/', "every line printed for a leading comment is a Go line comment")
+		}
+	}
+}
